@@ -56,6 +56,7 @@ func WorkerMain(t Target) {
 	shrinkBudget := fs.Int("shrink", 150, "")
 	evlog := fs.Bool("eventlog", false, "")
 	retries := fs.Int("retries", 1, "replay: executions to try before concluding")
+	sameProc := fs.Bool("same-process", false, "replay: run all builds in this process instead of one process each")
 	_ = fs.Parse(os.Args[2:])
 	Tier = *tier
 	defer CleanupBase()
@@ -63,7 +64,11 @@ func WorkerMain(t Target) {
 	case "run":
 		os.Exit(runBatch(t, *prop, *seed, *from, *to, *out, *maxS, *shrinkBudget, *evlog))
 	case "replay":
+		Isolate = !*sameProc
 		os.Exit(replayFile(t, *file, *retries))
+	case "exec1":
+		Exec1(t)
+		os.Exit(0)
 	case "genbatch":
 		o := GenBatch(t, *prop, *seed, *to, *file)
 		writeJSON(*out, o)
@@ -207,6 +212,16 @@ func replayFile(t Target, path string, retries int) int {
 		return 2
 	}
 	sig, detail := "", ""
+	if !Isolate && len(v.Worlds) > 0 {
+		// same-process mode asks: does the violation exist only when this is not the first build of
+		// the process? warm the process up with one build that is not judged
+		w := v.Worlds[0].Clone()
+		w.Faults = nil
+		if v.Property == "C19" {
+			loadSelf()
+		}
+		Exec(t, w)
+	}
 	for a := 0; a < retries && sig == ""; a++ {
 		sig, detail = replayViolation(t, &v)
 		if sig != "" && a > 0 {
